@@ -394,6 +394,8 @@ prop('C18', [
     sign.r_sign,
     role.r_role,
     misc.r_visit,
+    models.r_function_views,
+    models.r_autoref_siblings,
 ],
     'low/high accessors return the successor of their name; succ() keeps '
     '(level, LOW, HIGH); to_nx labels value=False on LOW and carries the '
@@ -498,7 +500,10 @@ MODEL_TEXT = {
     'C18': ' Models: `_to_dot` with `DotGraph` on twelve graphs (arcs, '
            'styles, complement marks, one external reference per root), '
            'and the legend of doc.md against the styles used; `support` / '
-           '`descendants`.',
+           '`descendants`; the views of `autoref.Function` (var, level, '
+           'low, high, negated, size, support, count, copy) on every '
+           'reference of two managers; `autoref.BDD.succ` and the other '
+           'shared methods against `dd.bdd.BDD`.',
     'C19': ' Models: the finalisers of the four Cython `Function` classes '
            'against a recording library call.',
 }
